@@ -155,7 +155,8 @@ def gen_event(rng, uid, with_rule=True, zoned=None):
             meta["rules"].append(r)
             meta["cls"] |= cls
         if rng.random() < 0.15:
-            x = rrgen.gen_rule(rng, ds)
+            # (an exception rule of seconds, minutes or hours makes the filter walk every one of them: finding D167, C09's matter)
+            x = rrgen.gen_rule(rng, ds, freq=rng.choice(["YEARLY", "MONTHLY", "WEEKLY", "DAILY"]))
             x.count = None
             sched.append("EXRULE:" + x.text())
             meta["cls"].add("exrule")
@@ -235,7 +236,10 @@ def run(ctx):
     known_classes = {k.get("class") for k in common.load_known("C05") if k.get("status") == "known"}
     # 1. field mapping
     ops = ["p.parse " + t.encode("latin-1").hex() for t, _, _ in cals]
+    import time as _time
+    _t0 = _time.time(); phases = {}
     impl, st, err = ctx.impl(exe, ops, timeout=300)
+    phases["fields"] = round(_time.time() - _t0, 1)
     for i, (t, exp, meta) in enumerate(cals):
         a = impl[i] if i < len(impl) else "<no answer>"
         m = re.match(r"S\{(.*?)\|vtod=", a)
@@ -257,7 +261,9 @@ def run(ctx):
         text = "\n".join(["BEGIN:VCALENDAR", "VERSION:2.0"] + sum((["BEGIN:VEVENT"] + e[0] + ["END:VEVENT"] for e in evs), []) + ["END:VCALENDAR", ""])
         batches.append((text, evs))
     bops = ["p.all " + t.encode("latin-1").hex() for t, _ in batches]
+    _t0 = _time.time()
     bimpl, bst, berr = ctx.impl(exe, bops, timeout=300)
+    phases["batches"] = round(_time.time() - _t0, 1)
     for i, (t, evs) in enumerate(batches):
         a = bimpl[i] if i < len(bimpl) else "<no answer>"
         got = re.findall(r"S\{(.*?)\|vtod=[^}]*\}", a)
@@ -274,7 +280,9 @@ def run(ctx):
         for k in meta.get("ks") or (rng.sample(ks, 3 if thorough else 2) + [0]):
             rops.append("p.rt %s %d %d" % (t.encode("latin-1").hex(), k, nocc))
             rmeta.append((i, k))
+    _t0 = _time.time()
     rimpl, st2, err2 = ctx.impl(exe, rops, timeout=600)
+    phases["round_trips"] = round(_time.time() - _t0, 1)
     kcnt = collections.Counter()
     for j, (i, k) in enumerate(rmeta):
         a = rimpl[j] if j < len(rimpl) else "<no answer>"
@@ -323,7 +331,10 @@ def run(ctx):
                 continue
             fails.append((rops[j], "%s [%s]\n--- input\n%s--- written\n%s" % (why, ",".join(sorted(cls)) or "plain", t, text)))
     # 3. the rule text layer against the Lean model (what C05.rule_text_roundtrip is about)
+    _t0 = _time.time()
     tl = p_rrtext.run_layer(ctx, exe, rng, 4000 if thorough else 700)
+    phases["rule_text_layer"] = round(_time.time() - _t0, 1)
+    ctx.cov["phase_seconds"] = phases
     corr = tl["diffs"]
     for st_, txt, back in tl["changed"]:
         fails.append(("r.parse " + txt.encode("latin-1").hex(), "a rule the parser produced is not read back from its own text:\n   rule %s\n   text %s\n   back %s" % (st_, txt, back)))
